@@ -1,33 +1,284 @@
 /-
-  C04 — Encoding then decoding a message returns the same message.
-  FIRST-CLAIM version (table invariant, name and message round trips are being added).
+  C04 — A message that is serialised and then deserialised comes back unchanged.
+  Property theorems only; helper lemmas live in Proofs/WireEncode*.lean.
+
+  `TableInv`/`NameInv` (pointer-table invariants), `EncReach` (encoder states), `LayoutOK`,
+  `flagOctet1/2`, `Ext`, `Reads` are defined in the Proofs files; `WireName`, `NameWF`, `RRWF`,
+  `QuestionWF`, `HeaderWF`, `WfMsg` in Spec/Wire.lean.
 -/
-import Resolved.Spec.Wire
+import Resolved.Proofs.WireEncodeGrammar
+import Resolved.Proofs.WireEncodeDec
 
 namespace Resolved
 
 open Gen
 
-/-- The serialiser writes, per record type, exactly the field sequence the deserialiser reads
-    (re-checked against the layouts extracted from the Rust source on every run). -/
-theorem C04_layouts_agree : rdataDecodeLayout = rdataEncodeLayout := by decide
+/-! ### 1. RDATA layouts -/
 
-theorem C04_layout_of_agree (code : Nat) : decodeLayoutOf code = encodeLayoutOf code := by
-  unfold decodeLayoutOf encodeLayoutOf; rw [C04_layouts_agree]
+/-- The generated decode and encode RDATA layout tables are the same table (re-checked by
+    `decide` every time `Generated.lean` is regenerated from the Rust source). -/
+theorem C04_layout_tables_equal : Gen.rdataDecodeLayout = Gen.rdataEncodeLayout := by decide
 
-/-- A compression pointer is only recorded for offsets that fit its 14 bits. -/
-theorem C04_memoise_fits (b : WBuf) (n : Name) (k : Name) (p : Nat)
-    (hinv : ∀ k p, (k, p) ∈ b.namePointers → ∃ off, p = 0xC000 + off ∧ off < 16384)
-    (h : (k, p) ∈ (b.memoiseName n).namePointers) : ∃ off, p = 0xC000 + off ∧ off < 16384 := by
-  unfold WBuf.memoiseName at h
-  split at h
-  · split at h
-    · rename_i hlt
-      simp at h
-      rcases h with h | ⟨_, rfl⟩
-      · exact hinv k p h
-      · exact ⟨b.index, rfl, hlt⟩
-    · exact hinv k p h
-  · exact hinv k p h
+/-- For every type code the decoder reads exactly the field list the encoder writes (hence, in
+    particular, lists of the same length). -/
+theorem C04_layouts_agree (code : Nat) :
+    decodeLayoutOf code = encodeLayoutOf code ∧
+    (decodeLayoutOf code).length = (encodeLayoutOf code).length := by
+  have h := decodeLayoutOf_eq code
+  exact ⟨h, by rw [h]⟩
+
+/-- An `.opaque` field (which swallows the whole RDATA on decode) only ever occurs as the single
+    field of its layout, for every type code. -/
+theorem C04_layout_opaque_alone (code : Nat) :
+    encodeLayoutOf code = [.opaque] ∨ Field.opaque ∉ encodeLayoutOf code :=
+  encodeLayoutOf_ok code
+
+/-! ### 2. Header -/
+
+/-- The four octets `Header::serialise` writes decode back to the header (ID by `next_u16`, the two
+    flag octets by `next_u8` and the mask/shift logic of `Header::deserialise`), for every header
+    with a 16-bit ID and 4-bit opcode/rcode. -/
+theorem C04_header_roundtrip (h : Header) (hwf : HeaderWF h) :
+    ∃ f1 f2,
+      (encodeHeader WBuf.empty h).octets.length = 4 ∧
+      nextU16 (encodeHeader WBuf.empty h).octets 0 = some (h.id, 2) ∧
+      nextU8 (encodeHeader WBuf.empty h).octets 2 = some (f1, 3) ∧
+      nextU8 (encodeHeader WBuf.empty h).octets 3 = some (f2, 4) ∧
+      decodeFlags h.id f1 f2 = h := by
+  have hf1 := (flagOctet1_spec h.isResponse h.isAuthoritative h.isTruncated h.recursionDesired
+    h.opcode hwf.2.1).1
+  have hf2 := (flagOctet2_spec h.recursionAvailable h.rcode hwf.2.2).1
+  refine ⟨flagOctet1 h.isResponse h.opcode h.isAuthoritative h.isTruncated h.recursionDesired,
+    flagOctet2 h.recursionAvailable h.rcode, ?_, ?_, ?_, ?_, decodeFlags_flagOctets h hwf⟩
+  · rw [encodeHeader_eq]; simp [WBuf.empty, headerBytes]
+  · rw [encodeHeader_eq]
+    exact nextU16_at' [] [u8 (flagOctet1 h.isResponse h.opcode h.isAuthoritative h.isTruncated
+      h.recursionDesired), u8 (flagOctet2 h.recursionAvailable h.rcode)]
+      (by simp [WBuf.empty, headerBytes]) rfl hwf.1
+  · rw [encodeHeader_eq, ← u8_toNat _ hf1]
+    exact nextU8_at' (u16Bytes h.id) [u8 (flagOctet2 h.recursionAvailable h.rcode)]
+      (by simp [WBuf.empty, headerBytes]) rfl
+  · rw [encodeHeader_eq, ← u8_toNat _ hf2]
+    exact nextU8_at' (u16Bytes h.id ++ [u8 (flagOctet1 h.isResponse h.opcode h.isAuthoritative
+      h.isTruncated h.recursionDesired)]) [] (by simp [WBuf.empty, headerBytes]) rfl
+
+/-- The flag octets themselves: every bit field survives, for all 2⁵·16·16 combinations. -/
+theorem C04_flag_octets (qr aa tc rd ra : Bool) (opcode rcode : Nat) (ho : opcode < 16)
+    (hr : rcode < 16) :
+    decodeFlags 0 (flagOctet1 qr opcode aa tc rd) (flagOctet2 ra rcode)
+      = ⟨0, qr, opcode, aa, tc, rd, ra, rcode⟩ :=
+  decodeFlags_flagOctets ⟨0, qr, opcode, aa, tc, rd, ra, rcode⟩ ⟨Nat.zero_lt_succ _, ho, hr⟩
+
+/-! ### 3. Big-endian integers -/
+
+/-- A 16-bit value written big-endian anywhere in a buffer is read back by `next_u16`. -/
+theorem C04_u16_roundtrip (pre post : List UInt8) (v : Nat) (h : v < 65536) :
+    nextU16 (pre ++ u16Bytes v ++ post) pre.length = some (v, pre.length + 2) :=
+  nextU16_at pre post v h
+
+/-- A 32-bit value written big-endian anywhere in a buffer is read back by `next_u32`. -/
+theorem C04_u32_roundtrip (pre post : List UInt8) (v : Nat) (h : v < 4294967296) :
+    nextU32 (pre ++ u32Bytes v ++ post) pre.length = some (v, pre.length + 4) :=
+  nextU32_at pre post v h
+
+/-! ### 4. Compression-pointer table -/
+
+/-- In every state the encoder can reach from the empty buffer (through any sequence of
+    `write_*`, `memoise_name`, name/field/question/record/header serialisation steps, including
+    the RDLENGTH back-patch), every entry of the name-pointer table is `0xC000 + off` with `off`
+    inside the 14 offset bits and not beyond the octets written so far. -/
+theorem C04_pointer_table_inv (b : WBuf) (h : EncReach b) :
+    ∀ n p, (n, p) ∈ b.namePointers → ∃ off, p = 0xC000 + off ∧ off < 16384 ∧ off ≤ b.octets.length :=
+  h.tableInv
+
+/-- Step-wise form of the same fact: the invariant holds of the empty buffer and is preserved by
+    each encoder step. -/
+theorem C04_pointer_table_inv_steps :
+    TableInv WBuf.empty ∧
+    (∀ b o, TableInv b → TableInv (b.writeU8 o)) ∧
+    (∀ b v, TableInv b → TableInv (b.writeU16 v)) ∧
+    (∀ b v, TableInv b → TableInv (b.writeU32 v)) ∧
+    (∀ b x, TableInv b → TableInv (b.writeOctets x)) ∧
+    (∀ b n, TableInv b → TableInv (b.memoiseName n)) ∧
+    (∀ b n c, TableInv b → TableInv (encodeName b n c)) ∧
+    (∀ b f v, TableInv b → TableInv (encodeField b f v)) ∧
+    (∀ b fs vs, TableInv b → TableInv (encodeFields b fs vs)) ∧
+    (∀ b h, TableInv b → TableInv (encodeHeader b h)) ∧
+    (∀ b q, TableInv b → TableInv (encodeQuestion b q)) ∧
+    (∀ b rr b', TableInv b → encodeRR b rr = .ok b' → TableInv b') ∧
+    (∀ b rrs b', TableInv b → encodeRRs b rrs = .ok b' → TableInv b') :=
+  ⟨TableInv_empty, fun _ o h => h.writeU8 o, fun _ v h => h.writeU16 v, fun _ v h => h.writeU32 v,
+    fun _ x h => h.writeOctets x, fun _ n h => h.memoiseName n, fun _ n c h => h.encodeName n c,
+    fun _ f v h => h.encodeField f v, fun _ fs vs h => TableInv.encodeFields fs vs h,
+    fun _ hd h => h.encodeHeader hd, fun _ q h => h.encodeQuestion q,
+    fun _ rr _ h he => h.encodeRR rr he, fun _ rrs _ h he => TableInv.encodeRRs rrs h he⟩
+
+/-- The arithmetic of a compression pointer: for a 14-bit offset, the two octets of
+    `0xC000 + off` are `0xC0 + off / 256` (a valid octet with the two top bits set) and
+    `off % 256`, and the decoder's `(b % 64) * 256 + lo` recovers `off`. -/
+theorem C04_pointer_arith (off : Nat) (h : off < 16384) :
+    (0xC000 + off) / 256 % 256 = 0xC0 + off / 256 ∧ (0xC000 + off) % 256 = off % 256 ∧
+    192 ≤ 0xC0 + off / 256 ∧ 0xC0 + off / 256 < 256 ∧
+    ((0xC0 + off / 256) % 64) * 256 + off % 256 = off :=
+  pointer_arith off h
+
+/-- Every pointer `encodeName` writes fits: in a reachable encoder state, when the table has an
+    entry for `n`, the compressed serialisation is exactly the two octets
+    `0xC0 + off / 256, off % 256` for some `off < 2¹⁴` already written, and those octets decode to
+    `off`. -/
+theorem C04_pointers_fit (b : WBuf) (hb : EncReach b) (n : Name) (ptr : Nat)
+    (hp : b.namePointer n = some ptr) :
+    ∃ off, ptr = 0xC000 + off ∧ off < 16384 ∧ off ≤ b.octets.length ∧
+      encodeName b n true = b.writeOctets [u8 (0xC0 + off / 256), u8 (off % 256)] ∧
+      192 ≤ (u8 (0xC0 + off / 256)).toNat ∧
+      ((u8 (0xC0 + off / 256)).toNat % 64) * 256 + (u8 (off % 256)).toNat = off := by
+  obtain ⟨off, h1, h2, h3, h4⟩ := encodeName_pointer b n ptr hb.tableInv hp
+  obtain ⟨_, _, e3, e4, e5⟩ := pointer_arith off h2
+  refine ⟨off, h1, h2, h3, h4, ?_, ?_⟩
+  · rw [u8_toNat _ e4]; exact e3
+  · rw [u8_toNat _ e4, u8_toNat _ (by omega)]; exact e5
+
+/-! ### 5. Uncompressed names -/
+
+/-- The octets `writeLabels` appends for a well-formed name are `n.len` octets that form a
+    pointer-free `WireName` of the RFC 1035 grammar for `n.labels` (whatever precedes, whatever
+    follows, whatever the pointer bound `s`), and `DomainName::deserialise` started there returns
+    exactly `n` and stops right after them. -/
+theorem C04_name_roundtrip_uncompressed (n : Name) (hwf : NameWF n) (b : WBuf)
+    (post : List UInt8) (s id : Nat) :
+    ∃ bytes, (writeLabels b n.labels).octets = b.octets ++ bytes ∧ bytes.length = n.len ∧
+      WireName (b.octets ++ bytes ++ post) s b.octets.length n.labels n.len
+        (b.octets.length + n.len) ∧
+      decodeName id (b.octets ++ bytes ++ post) b.octets.length
+        = .ok (n, b.octets.length + n.len) := by
+  refine ⟨flatLabels n.labels, by rw [writeLabels_eq], hwf.len_eq, ?_, ?_⟩
+  · exact wireName_hasAt hwf ⟨b.octets, post, rfl, rfl⟩ s
+  · exact decodeNameLoop_hasAt id _ _ _ n hwf ⟨b.octets, post, rfl, rfl⟩
+
+/-! ### 6. Names with compression -/
+
+/-- The strong table invariant (`NameInv`: each entry `(m, 0xC000 + off)` has a well-formed `m`
+    and an uncompressed copy of `m` at `off`, `off < 2¹⁴`) holds initially and is preserved by
+    serialising a well-formed name, with or without compression. -/
+theorem C04_name_inv (b : WBuf) (n : Name) (c : Bool) (hinv : NameInv b) (hwf : NameWF n) :
+    NameInv WBuf.empty ∧ NameInv (encodeName b n c) :=
+  ⟨NameInv_empty, hinv.encodeName hwf c⟩
+
+/-- Name round trip, compression included: under the table invariant, what
+    `DomainName::serialise` appends for a well-formed name (its labels, or a two-octet pointer to an
+    earlier copy) is read back by `DomainName::deserialise` as the same name, ending exactly where
+    the encoder stopped — on the buffer as it stands and on any extension of it. -/
+theorem C04_name_roundtrip (b : WBuf) (n : Name) (c : Bool) (hinv : NameInv b) (hwf : NameWF n)
+    (id : Nat) (post : List UInt8) :
+    (∃ x, (encodeName b n c).octets = b.octets ++ x) ∧
+    decodeName id ((encodeName b n c).octets ++ post) b.octets.length
+      = .ok (n, (encodeName b n c).octets.length) :=
+  ⟨Ext.encodeName b n c, encodeName_reads b n c hinv hwf id post⟩
+
+/-- … and it is a `WireName` of the declarative grammar whose pointers all point strictly
+    backwards. -/
+theorem C04_name_wire (b : WBuf) (n : Name) (c : Bool) (hinv : NameInv b) (hwf : NameWF n)
+    (post : List UInt8) :
+    WireName ((encodeName b n c).octets ++ post) b.octets.length b.octets.length n.labels n.len
+      (encodeName b n c).octets.length :=
+  encodeName_wireName b n c hinv hwf post
+
+/-! ### 7. Fields, records, questions, sections, message -/
+
+/-- One RDATA field of any kind round-trips (for `.opaque`, given the RDLENGTH the decoder was
+    handed is the number of octets written). -/
+theorem C04_field_roundtrip (b : WBuf) (f : Field) (v : FieldVal) (hinv : NameInv b)
+    (hwf : FieldValWF f v) (id rdl : Nat)
+    (hrdl : f = .opaque → rdl = (encodeField b f v).octets.length - b.octets.length)
+    (post : List UInt8) :
+    NameInv (encodeField b f v) ∧
+    decodeField id ((encodeField b f v).octets ++ post) rdl f b.octets.length
+      = .ok (v, (encodeField b f v).octets.length) :=
+  ⟨(encodeField_spec b f v hinv hwf).2.1, (encodeField_spec b f v hinv hwf).2.2 id rdl hrdl post⟩
+
+/-- The RDATA of any record type round-trips, the decoder being given the true RDATA length. -/
+theorem C04_rdata_roundtrip (b : WBuf) (code : Nat) (vs : List FieldVal) (hinv : NameInv b)
+    (hwf : FieldsWF (encodeLayoutOf code) vs) (id : Nat) (post : List UInt8) :
+    decodeFields id ((encodeFields b (encodeLayoutOf code) vs).octets ++ post)
+        ((encodeFields b (encodeLayoutOf code) vs).octets.length - b.octets.length)
+        (decodeLayoutOf code) b.octets.length
+      = .ok (vs, (encodeFields b (encodeLayoutOf code) vs).octets.length) := by
+  rw [decodeLayoutOf_eq]
+  exact (encodeFields_spec _ vs b hinv hwf (encodeLayoutOf_ok code)).2.2 id post
+
+/-- The RDLENGTH back-patch is equivalent to writing the final RDLENGTH up front: a successful
+    `ResourceRecord::serialise` yields exactly the buffer and table obtained by writing the owner
+    name, type, class, TTL, the *final* RDLENGTH and then the RDATA. -/
+theorem C04_rdlength_backpatch (b : WBuf) (rr : RR) (b' : WBuf) (h : encodeRR b rr = .ok b') :
+    ∃ rdl, rdl < 65536 ∧
+      b' = encodeFields
+        (((((encodeName b rr.name rrNameCompress).writeU16 rr.rtype).writeU16 rr.rclass).writeU32
+          rr.ttl).writeU16 rdl) (encodeLayoutOf rr.rtype) rr.fields ∧
+      rdl = b'.octets.length -
+        (((((encodeName b rr.name rrNameCompress).writeU16 rr.rtype).writeU16 rr.rclass).writeU32
+          rr.ttl).writeU16 rdl).octets.length :=
+  encodeRR_eq b rr b' h
+
+/-- Resource-record round trip, including owner-name compression and the RDLENGTH back-patch. -/
+theorem C04_rr_roundtrip (b : WBuf) (rr : RR) (b' : WBuf) (hinv : NameInv b) (hwf : RRWF rr)
+    (h : encodeRR b rr = .ok b') (id : Nat) (post : List UInt8) :
+    NameInv b' ∧ decodeRR id (b'.octets ++ post) b.octets.length = .ok (rr, b'.octets.length) :=
+  ⟨(encodeRR_spec b rr b' hinv hwf h).2.1, (encodeRR_spec b rr b' hinv hwf h).2.2 id post⟩
+
+/-- Question round trip. -/
+theorem C04_question_roundtrip (b : WBuf) (q : Question) (hinv : NameInv b) (hwf : QuestionWF q)
+    (id : Nat) (post : List UInt8) :
+    NameInv (encodeQuestion b q) ∧
+    decodeQuestion id ((encodeQuestion b q).octets ++ post) b.octets.length
+      = .ok (q, (encodeQuestion b q).octets.length) :=
+  ⟨(encodeQuestion_spec b q hinv hwf).2.1, (encodeQuestion_spec b q hinv hwf).2.2 id post⟩
+
+/-- A whole section of resource records round-trips. -/
+theorem C04_section_roundtrip (b b' : WBuf) (rrs : List RR) (hinv : NameInv b)
+    (hwf : ∀ r ∈ rrs, RRWF r) (h : encodeRRs b rrs = .ok b') (id : Nat) (post : List UInt8) :
+    NameInv b' ∧
+    decodeMany (decodeRR id (b'.octets ++ post)) rrs.length b.octets.length
+      = .ok (rrs, b'.octets.length) :=
+  ⟨(encodeRRs_spec rrs b b' hinv hwf h).2.1, (encodeRRs_spec rrs b b' hinv hwf h).2.2 id post⟩
+
+/-- **C04.** Every well-formed message that `Message::to_octets` accepts is returned unchanged by
+    `Message::from_octets` on the produced octets. -/
+theorem C04_roundtrip (m : Message) (bs : List UInt8) (hwf : WfMsg m)
+    (h : encodeMessage m = .ok bs) : decodeMessage bs = .ok m :=
+  encodeMessage_roundtrip m bs hwf h
+
+/-- The encoder refuses only on a section count that does not fit 16 bits or an RDATA longer than
+    65 535 octets; in particular a well-formed message with fewer than 65 536 entries per section
+    and no record at all is always accepted (so `C04_roundtrip` is not vacuous for lack of
+    successful encodings). -/
+theorem C04_encode_questions_only_ok (m : Message) (hq : m.questions.length < 65536)
+    (ha : m.answers = []) (hn : m.authority = []) (hr : m.additional = []) :
+    ∃ bs, encodeMessage m = .ok bs := by
+  unfold encodeMessage
+  simp [usizeToU16, hq, ha, hn, hr, encodeRRs]
+
+/-! ### Non-vacuity on concrete values
+
+`C04ex.msg` (Proofs/WireEncodeDec.lean): a response with one question and two answers (A, MX) that
+all share the owner name `a.bc.`; `C04ex.bytes`: its 58 octets, in which both answer owner names are
+the compression pointer `C0 0C`. -/
+
+example : WfMsg C04ex.msg := by decide
+example : encodeMessage C04ex.msg = .ok C04ex.bytes := by decide
+/-- the decoder (well-founded recursion, not evaluable by `decide`) is run by the theorem -/
+example : decodeMessage C04ex.bytes = .ok C04ex.msg := C04_roundtrip _ _ (by decide) (by decide)
+
+example : (encodeHeader WBuf.empty ⟨0xBEEF, true, 2, false, true, true, false, 5⟩).octets
+    = [190, 239, 147, 5] := by decide
+example : decodeFlags 0xBEEF 147 5 = ⟨0xBEEF, true, 2, false, true, true, false, 5⟩ := by decide
+example : HeaderWF ⟨0xBEEF, true, 2, false, true, true, false, 5⟩ := by decide
+example : nextU16 [7, 1, 2, 9] 1 = some (258, 3) := by decide
+example : u32Bytes 0x01020304 = [1, 2, 3, 4] := by decide
+example : NameWF C04ex.name := by decide
+/-- a table entry at offset 12 and the pointer written for it -/
+example : (encodeName ⟨List.replicate 12 0 ++ [1, 97, 0], [(⟨[[97], []], 3⟩, 0xC00C)]⟩
+    ⟨[[97], []], 3⟩ true).octets = List.replicate 12 0 ++ [1, 97, 0, 192, 12] := by decide
+example : encodeLayoutOf 6 = [.name false, .name false, .u32, .u32, .u32, .u32, .u32] := by decide
+example : encodeLayoutOf 4711 = [.opaque] := by decide
 
 end Resolved
